@@ -24,8 +24,17 @@ ENUM_CLASSES = ["Node", "SlotLM"]
 def check_case(case, acc):
     make = nodes.factory(case["cls"])
     tree = forest.build_tree(case["shape"], make, via=case.get("via", "parent"))
-    start = tree[case["start"]]
     labels = forest.Labels(tree)
+    _once(case, acc, tree, labels)
+    for op in case.get("mutations", []):
+        # the iterators follow the current links: re-check on the same node objects after a mutation
+        refs.mutate_tree(tree, op)
+        _once(case, acc, tree, labels)
+        acc.tag("rechecked_after_mutation")
+
+
+def _once(case, acc, tree, labels):
+    start = tree[case["start"]]
     before = forest.snapshot(tree, labels)
 
     pre = refs.preorder(start)
@@ -101,7 +110,7 @@ def random_cases(draw):
     start = draw(st.one_of(st.just(0), st.integers(0, size - 1)))
     cls = draw(st.sampled_from(nodes.TREE_CLASSES))
     via = draw(st.sampled_from(["parent", "children"]))
-    return {"shape": shape, "start": start, "cls": cls, "via": via}
+    return {"shape": shape, "start": start, "cls": cls, "via": via, "mutations": draw(strategies.tree_mutations())}
 
 
 def plan(tier, seed):
